@@ -1,10 +1,11 @@
 PROP = {
     "id": "C47",
     "theorem_modules": ["Verif.Properties.C47"],
-    "min_theorems": 7,
+    "min_theorems": 8,
     "required_theorems": [
         "Verif.Properties.C47.bounded",
         "Verif.Properties.C47.uniform",
+        "Verif.Properties.C47.uniform_all_draws",
         "Verif.Properties.C47.retry",
         "Verif.Properties.C47.no_modulo_uniform",
         "Verif.Properties.C47.zero_modulo",
@@ -19,7 +20,7 @@ PROP = {
     "level_text": "Lean theorems about a code-shaped model of stdlib/random.go (getUint64RandomNumber / getBigRandomNumber / "
                   "RevertibleRandom): every result < modulo; the draw -> masked candidate map is exactly "
                   "2^(8*byteSize-bitSize)-to-one, so every value below the modulo has the same number of accepting draws "
-                  "(counting theorem, no modulo bias); a rejected draw leaves a fresh call on the rest of the stream; no "
+                  "(counting theorem, no modulo bias); for every source length L any two values below the modulo are returned by the same number of the 256^L sources (all draws); a rejected draw leaves a fresh call on the rest of the stream; no "
                   "modulo = bijection from the drawn bytes onto T; zero modulo = user error.  Tied to /repo by the `rand` "
                   "stream: host ReadRandom scripted from a byte string, stdlib.RevertibleRandom directly and "
                   "revertibleRandom<T>(modulo:) scripts in both engines; UInt8: all 256 moduli x all 256 first source bytes; "
